@@ -191,6 +191,7 @@ func Go(name string, f func()) {
 		gmu.Lock()
 		gnames[id] = name
 		gmu.Unlock()
+		gateAt("start", nil) // threads start in the recorded order
 		f()
 	}()
 }
@@ -254,40 +255,55 @@ func gateAt(point string, f func()) {
 		name += ":" + point
 	}
 	deadline := time.Now().Add(5 * time.Second)
+	waited := false
 	for gpos < len(sched) && sched[gpos] != name {
 		if time.Now().After(deadline) {
 			return // diverged from the recorded schedule: let the run finish (reported as unconfirmed)
 		}
+		waited = true
 		waitCond(100 * time.Millisecond)
+	}
+	if waited && gpos < len(sched) {
+		// the previous passer's un-gated steps after its gate happened before this thread went on
+		// in the recorded execution: give them time to finish
+		gmu.Unlock()
+		time.Sleep(time.Duration(Param("native_grace_ms", 5)) * time.Millisecond)
+		gmu.Lock()
 	}
 	if gpos < len(sched) {
 		gpos++
 	}
 	run()
 	gcond.Broadcast()
-	// In the recorded execution this thread may have been preempted after this point: the gate
-	// passages of other threads recorded before this thread's own next passage happened first.
-	// Hold the thread here until they have happened (bounded wait), so that what follows the
-	// gate runs after them as it did in the recorded execution.
+	if !strings.HasPrefix(point, "m:") {
+		return
+	}
+	// single-point gate (a metric emission inside the code under test): the recorded schedule
+	// says, with an entry "<thread>:+", when this thread went on after the gate
 	who := name
 	if i := strings.IndexByte(name, ':'); i >= 0 {
 		who = name[:i]
 	}
-	next := len(sched)
-	for j := gpos; j < len(sched); j++ {
-		e := sched[j]
-		if e == who || strings.HasPrefix(e, who+":") {
-			next = j
-			break
+	hold := time.Now().Add(time.Duration(Param("native_hold_ms", 500)) * time.Millisecond)
+	held := false
+	for gpos < len(sched) && sched[gpos] != who+":+" && time.Now().Before(hold) {
+		found := false
+		for j := gpos; j < len(sched); j++ {
+			if sched[j] == who+":+" {
+				found = true
+				break
+			}
 		}
+		if !found {
+			return
+		}
+		held = true
+		waitCond(20 * time.Millisecond)
 	}
-	if next > gpos {
-		hold := time.Now().Add(time.Duration(Param("native_hold_ms", 300)) * time.Millisecond)
-		for gpos < next && time.Now().Before(hold) {
-			waitCond(20 * time.Millisecond)
-		}
-		if gpos >= next {
-			// let the un-gated tail of the other threads' steps finish
+	if gpos < len(sched) && sched[gpos] == who+":+" {
+		gpos++
+		gcond.Broadcast()
+		if held {
 			gmu.Unlock()
 			time.Sleep(time.Duration(Param("native_grace_ms", 5)) * time.Millisecond)
 			gmu.Lock()
